@@ -473,16 +473,29 @@ def _normaliser_kinds(ctx, repo, fi, consts, role, rule):
         if d is not None:
             defaults[x.arg] = d
     bind = {n: (consts[n] if n in consts else defaults[n]) for n in names[1:] if n in consts or n in defaults}
-    w = repo.walker()
+    # helpers that turn one kind of raw value into another are followed, except the two whose
+    # *call* is what the rule looks for
+    def first_order(f):
+        for c in ast.walk(f.node):
+            if isinstance(c, ast.Call) and isinstance(c.func, ast.Name):
+                g = repo.module_funcs.get((f.module, c.func.id))
+                if g is not None and g is not f:
+                    gp = {x.arg for x in g.node.args.args + g.node.args.kwonlyargs}
+                    if any(isinstance(x, ast.Call) and isinstance(x.func, ast.Name) and x.func.id in gp for x in ast.walk(g.node)):
+                        return False        # the callee calls one of its parameters: not followed
+        return True
+    w = repo.walker(inline_depth=1 if first_order(fi) else 0, keep={'compile_expr_into_callable', 'convert_a_field_raw_condition_into_a_boolean_unary_expression'})
     kinds = set()
     label = 'count' if role == 'count' else 'condition'
+    from ..model import path_facts
     for p in w.paths(fi.node, bind=dict(bind)):
         gt = gtexts(p)
         r = p.ret()
         if p.raises():
             kinds.add('reject')
             continue
-        pos = [g for g in gt if not g.startswith('not ')]
+        # what is known on the path (unit propagation through disjunctions), atoms only
+        pos = [g for g in (set(gt) | set(path_facts(p))) if not g.startswith('not ') and ' or ' not in g]
         if ('callable(%s)' % P) in pos and not any('isinstance(%s' % P in g for g in pos):
             kinds.add('callable')
             if r is None or canon(r) != P:
